@@ -104,3 +104,33 @@ Example C29_loop_segment_loses_a_combination :
   | Done ps => forallb (fun p => negb (ifs_eqb (p_ifs p) [(12, 1); (11, 4)])) ps = true
   | _ => False end.
 Proof. vm_compute. repeat split; try reflexivity. right. now left. Qed.
+
+(** Non-vacuity for shortcuts and on-path cuts: a down segment through X (11) to
+    W (14).  From Y (12) to W the only combination is the shortcut at X (an inner
+    cut of both segments: VC_up_down with i = 1, j = 1); from Y to X the up
+    segment is left at X (VC_up with i = 1).  Both are valid, short and returned. *)
+Definition ex_down2 : segment :=
+  mkSeg 1700000300 13
+    [mkAS 10 (mkHop 0 1 63 [1;2;1;2;1;2]) 0 1500 [];
+     mkAS 11 (mkHop 1 3 63 [2;3;2;3;2;3]) 1400 1500 [];
+     mkAS 14 (mkHop 1 0 63 [3;4;3;4;3;4]) 1250 1500 []].
+
+Example C29_example_shortcut :
+  wf_input [ex_up] [ex_core] [ex_down2] = true /\
+  valid_combination [ex_up] [ex_core] [ex_down2] 12 14 [(12, 1); (11, 2); (11, 3); (14, 1)] /\
+  valid_combination [ex_up] [ex_core] [ex_down2] 12 11 [(12, 1); (11, 2)] /\
+  all_combinations [ex_up] [ex_core] [ex_down2] 12 14 =
+    [ [(12, 1); (11, 2); (11, 1); (10, 1); (10, 1); (11, 1); (11, 3); (14, 1)];
+      [(12, 1); (11, 2); (11, 3); (14, 1)] ] /\
+  match combine 12 14 [(1, ex_up)] [(2, ex_core)] [(3, ex_down2)] false,
+        combine 12 11 [(1, ex_up)] [(2, ex_core)] [(3, ex_down2)] false with
+  | Done ps, Done qs =>
+    map p_ifs ps = [[(12, 1); (11, 2); (11, 3); (14, 1)]] /\     (* the join at the core AS passes 11 four times *)
+    map p_ifs qs = [[(12, 1); (11, 2)]]
+  | _, _ => False end.
+Proof.
+  split; [vm_compute; reflexivity|]. split.
+  - apply all_combinations_spec. vm_compute. right. now left.
+  - split; [apply all_combinations_spec; vm_compute; now left|].
+    vm_compute. repeat split; reflexivity.
+Qed.
